@@ -68,7 +68,16 @@ def box(names, extra_zero=True):
             out.append(e)
     if len(out) > 300:
         out = out[::len(out) // 300 + 1]
+    # floating-point values on which + and * are visibly not associative: the grouping
+    # the parser assigns shows in the value ((a + b) + c = 1.0, a + (b + c) = 0.0 ...)
+    for vals in FLOAT_ENVS:
+        if len(names) >= 2:
+            for rot in range(min(len(names), 3)):
+                out.append({n: vals[(i + rot) % len(vals)] for i, n in enumerate(names)})
     return out
+
+
+FLOAT_ENVS = ((1e16, -1e16, 1.0, 3.0, 0.5), (1e200, 1e200, 1e-200, -1e200, 2.0))
 
 
 EXTRA_NAMES = {"not_ready": 5, "or_mask": 6, "if_": 7, "else_0": 9, "True_": 11,
@@ -520,7 +529,10 @@ def triple_skeletons(with_unary):
 
 
 def special_skeletons():
-    out = ["-a**b", "a**-b", "~a**b", "-a**-b**c", "not a**b", "- -a", "-~a", "~-a",
+    out = ["a+(b+c)", "a*(b*c)", "a+(b-c)", "a-(b+c)", "a-(b-c)", "a*(b*c)*d", "a+(b+c)+d",
+           "(a+b)+c", "(a*b)*c", "a+(b+(c+d))", "a*(b*(c*d))", "a*(b/c)", "a/(b*c)",
+           "a+(b+c)*d", "f1(a+(b+c))", "A[0]+(a+(b+c))", "(a+b)+(c+d)", "(a*b)*(c*d)",
+           "-a**b", "a**-b", "~a**b", "-a**-b**c", "not a**b", "- -a", "-~a", "~-a",
            "not not a", "not -a", "+a", "+a**b", "-a*b", "-a+b", "~a+b", "~a*b", "a*-b",
            "a**b**c", "a-b-c", "a/b/c", "a//b//c", "a%b%c", "a<<b<<c", "a>>b>>c",
            "a-b+c", "a/b*c", "a*b/c", "a*b//c", "a*b%c", "a//b*c", "a%b*c",
